@@ -203,11 +203,12 @@ type call struct {
 	cmp int
 }
 
-func run(c Triple) *pbt.Result {
-	vs := []*ref.V{c.A, c.B, c.C}
-	gs := []value.Value{gval.ToGolib(c.A), gval.ToGolib(c.B), gval.ToGolib(c.C)}
-	names := []string{"a", "b", "c"}
-	var r [3][3]call
+// laws evaluates all nine ordered pairs of three values and checks every law of the statement on them.
+func laws(gs [3]value.Value, names [3]string, copies [3]value.Value) (r [3][3]call, err error) {
+	var ty [3]byte
+	for i := range gs {
+		ty[i] = gs[i].GetValueType()
+	}
 	// totality: every ordered pair, no panic
 	for i := 0; i < 3; i++ {
 		for j := 0; j < 3; j++ {
@@ -217,63 +218,74 @@ func run(c Triple) *pbt.Result {
 				r[i][j].eq = gs[i].Equals(gs[j])
 			}()
 			if perr != nil {
-				return pbt.Fail("%s.Equals(%s) panics: %v", names[i], names[j], perr)
+				return r, fmt.Errorf("%s.Equals(%s) panics: %v", names[i], names[j], perr)
 			}
 			func() {
 				defer func() { perr = recover() }()
 				r[i][j].cmp = gs[i].CompareTo(gs[j])
 			}()
 			if perr != nil {
-				return pbt.Fail("%s.CompareTo(%s) panics: %v", names[i], names[j], perr)
+				return r, fmt.Errorf("%s.CompareTo(%s) panics: %v", names[i], names[j], perr)
 			}
 		}
 	}
 	for i := 0; i < 3; i++ {
 		if !r[i][i].eq || r[i][i].cmp != 0 {
-			return pbt.Fail("%s is not equal to itself: Equals=%v CompareTo=%d", names[i], r[i][i].eq, r[i][i].cmp)
+			return r, fmt.Errorf("%s is not equal to itself: Equals=%v CompareTo=%d", names[i], r[i][i].eq, r[i][i].cmp)
 		}
-		cl := gval.ToGolib(ref.Clone(vs[i]))
-		if !gs[i].Equals(cl) || !cl.Equals(gs[i]) || gs[i].CompareTo(cl) != 0 {
-			return pbt.Fail("%s is not equal to an identical copy of itself", names[i])
+		cl := copies[i]
+		if cl != nil && (!gs[i].Equals(cl) || !cl.Equals(gs[i]) || gs[i].CompareTo(cl) != 0) {
+			return r, fmt.Errorf("%s is not equal to an identical copy of itself", names[i])
 		}
 		d := roundTrip(gs[i])
 		if !gs[i].Equals(d) || !d.Equals(gs[i]) {
-			return pbt.Fail("%s does not equal the result of decoding its encoding", names[i])
+			return r, fmt.Errorf("%s does not equal the result of decoding its encoding", names[i])
 		}
 		if gs[i].CompareTo(d) != 0 || d.CompareTo(gs[i]) != 0 {
-			return pbt.Fail("%s compares non-zero with the result of decoding its encoding", names[i])
+			return r, fmt.Errorf("%s compares non-zero with the result of decoding its encoding", names[i])
 		}
 	}
 	for i := 0; i < 3; i++ {
 		for j := 0; j < 3; j++ {
 			if r[i][j].eq != r[j][i].eq {
-				return pbt.Fail("Equals is not symmetric: %s.Equals(%s)=%v but %s.Equals(%s)=%v", names[i], names[j], r[i][j].eq, names[j], names[i], r[j][i].eq)
+				return r, fmt.Errorf("Equals is not symmetric: %s.Equals(%s)=%v but %s.Equals(%s)=%v", names[i], names[j], r[i][j].eq, names[j], names[i], r[j][i].eq)
 			}
 			if sign(r[i][j].cmp) != -sign(r[j][i].cmp) {
-				return pbt.Fail("CompareTo does not reverse sign: %s.CompareTo(%s)=%d, %s.CompareTo(%s)=%d", names[i], names[j], r[i][j].cmp, names[j], names[i], r[j][i].cmp)
+				return r, fmt.Errorf("CompareTo does not reverse sign: %s.CompareTo(%s)=%d, %s.CompareTo(%s)=%d", names[i], names[j], r[i][j].cmp, names[j], names[i], r[j][i].cmp)
 			}
-			if vs[i].T != vs[j].T {
-				want := sign(int(vs[i].T) - int(vs[j].T))
+			if ty[i] != ty[j] {
+				want := sign(int(ty[i]) - int(ty[j]))
 				if sign(r[i][j].cmp) != want {
-					return pbt.Fail("values of different types are not ordered by type: type %d vs type %d gives CompareTo=%d", vs[i].T, vs[j].T, r[i][j].cmp)
+					return r, fmt.Errorf("values of different types are not ordered by type: type %d vs type %d gives CompareTo=%d", ty[i], ty[j], r[i][j].cmp)
 				}
 				if r[i][j].eq {
-					return pbt.Fail("values of different types %d and %d are Equal", vs[i].T, vs[j].T)
+					return r, fmt.Errorf("values of different types %d and %d are Equal", ty[i], ty[j])
 				}
-			} else if isScalar(vs[i].T) {
+			} else if isScalar(ty[i]) {
 				if (r[i][j].cmp == 0) != r[i][j].eq {
-					return pbt.Fail("scalar type %d: CompareTo=%d but Equals=%v", vs[i].T, r[i][j].cmp, r[i][j].eq)
+					return r, fmt.Errorf("scalar type %d: CompareTo=%d but Equals=%v", ty[i], r[i][j].cmp, r[i][j].eq)
 				}
 			}
 			for k := 0; k < 3; k++ {
 				if r[i][j].eq && r[j][k].eq && !r[i][k].eq {
-					return pbt.Fail("Equals is not transitive: %s=%s and %s=%s but not %s=%s", names[i], names[j], names[j], names[k], names[i], names[k])
+					return r, fmt.Errorf("Equals is not transitive: %s=%s and %s=%s but not %s=%s", names[i], names[j], names[j], names[k], names[i], names[k])
 				}
 				if r[i][j].cmp <= 0 && r[j][k].cmp <= 0 && r[i][k].cmp > 0 {
-					return pbt.Fail("CompareTo is not transitive: %s<=%s (%d) and %s<=%s (%d) but %s>%s (%d)", names[i], names[j], r[i][j].cmp, names[j], names[k], r[j][k].cmp, names[i], names[k], r[i][k].cmp)
+					return r, fmt.Errorf("CompareTo is not transitive: %s<=%s (%d) and %s<=%s (%d) but %s>%s (%d)", names[i], names[j], r[i][j].cmp, names[j], names[k], r[j][k].cmp, names[i], names[k], r[i][k].cmp)
 				}
 			}
 		}
+	}
+	return r, nil
+}
+
+func run(c Triple) *pbt.Result {
+	vs := []*ref.V{c.A, c.B, c.C}
+	gs := [3]value.Value{gval.ToGolib(c.A), gval.ToGolib(c.B), gval.ToGolib(c.C)}
+	copies := [3]value.Value{gval.ToGolib(ref.Clone(c.A)), gval.ToGolib(ref.Clone(c.B)), gval.ToGolib(ref.Clone(c.C))}
+	r, err := laws(gs, [3]string{"a", "b", "c"}, copies)
+	if err != nil {
+		return pbt.Fail("%v", err)
 	}
 	// classification
 	nt := false
